@@ -391,3 +391,23 @@ func TestF17_NestedDiscountsRefuseDerivableCall(t *testing.T) {
 		}
 	}
 }
+
+// F18 (C16): defaults given at construction through NewFuncList are dropped.
+func TestF18_NewFuncListDropsOptions(t *testing.T) {
+	fs, err := am.NewFuncList([]interface{}{func(in struct {
+		am.Struct
+		A T1
+	}) int {
+		return in.A.ID
+	}}, am.Named("a", T1{7}))
+	if err != nil {
+		t.Fatal(err)
+	}
+	res := fs[0].Call()
+	if err := res.Err(); err != nil {
+		t.Fatalf("the default given at construction does not apply: %.80s", err)
+	}
+	if res.Out(0).(int) != 7 {
+		t.Fatalf("got %v", res.Out(0))
+	}
+}
